@@ -508,4 +508,6 @@ func runC20(e *Engine, r *Report) {
 	}
 	ruleShrunkPredicate(e, r)
 	ruleLogDBDirs(e, r)
+	ruleImportedAlwaysRecovered(e, r)
+	ruleTanRemoveAllFirst(e, r)
 }
